@@ -3063,8 +3063,13 @@ class MOFCompiler:
                 msg=_format("MOF file {0!A} includes itself, directly or "
                             "through the files it includes", filename))
 
-        with open(filename, encoding='utf-8') as f:
-            mof = f.read()
+        try:
+            with open(filename, encoding='utf-8') as f:
+                mof = f.read()
+        except UnicodeDecodeError as exc:
+            raise MOFParseError(
+                msg=_format("MOF file {0!A} is not UTF-8 encoded: {1}",
+                            filename, exc))
 
         self._files_in_progress.append(abs_filename)
         try:
